@@ -804,4 +804,159 @@ def output (render : α → List Char) (xs : List α) : List Char :=
 
 /-! ## equal_range / binary_search on arbitrary (also unsorted) input: see the `_any` theorems -/
 
+
+/-! # Callbacks that observe the container they are called from, and callbacks that throw
+
+A user function is `… → σ → Except Fault β × σ`: what it captured by reference (`σ`: logs, counters) persists whether it returns
+or throws (`.error (.exception _)`).  Where the C++ calls it while a container is being built or modified, the model hands it
+the container *as it is at the moment of the call* (first argument), so a theorem can say what the function is able to see.
+An exception is propagated by every helper (none of them catches): the result is `.error e` together with the state of every
+container involved at that moment.
+
+| model | C++ |
+|---|---|
+| `loopBreakE`, `tupleLoopBreakE`, `loopE` | `loop_break_impl.hpp`, `detail/tuple_loop_break.hpp`, `mpl/list/for_each_break.hpp`, `loop.hpp` |
+| `foldE`, `foldBreakE`, `mapE`, `generateNE` | `fold.hpp`, `fold_break.hpp`, `map_impl.hpp`, `generate_n.hpp` |
+| `findByOptE`, `stdFindIfE` | `find_by_opt.hpp`, `std::find_if` in `find_if_opt.hpp` |
+| `iterateE` | `sequence_iteration.hpp`, `map_iteration.hpp`, `map_iteration_second.hpp` |
+| `getOrInsertE` | `container/get_or_insert_with_result.hpp` |
+| `indexMapGetE` | `container/index_map_impl.hpp` |
+| `arrayInitX` | `array/init.hpp`, `array/map.hpp` |
+-/
+
+/-- `loop_break` with a body that may throw -/
+def loopBreakE (xs : List α) (body : α → σ → Except Fault Loop × σ) (s : σ) : Except Fault Unit × σ :=
+  match xs with
+  | [] => (.ok (), s)
+  | x :: rest =>
+    match body x s with
+    | (.error e, s') => (.error e, s')
+    | (.ok .break_, s') => (.ok (), s')
+    | (.ok .continue_, s') => loopBreakE rest body s'
+
+/-- the index recursion for tuples and mpl lists with a body that may throw -/
+def tupleLoopBreakE (xs : List α) (body : α → σ → Except Fault Loop × σ) (index : Nat) (s : σ) : Except Fault Unit × σ :=
+  if h : index < xs.length then
+    match body xs[index] s with
+    | (.error e, s') => (.error e, s')
+    | (.ok .continue_, s') => tupleLoopBreakE xs body (index + 1) s'
+    | (.ok .break_, s') => (.ok (), s')
+  else (.ok (), s)
+termination_by xs.length - index
+
+/-- `loop`: the body's result is replaced by `continue_` -/
+def loopE (xs : List α) (body : α → σ → Except Fault Unit × σ) (s : σ) : Except Fault Unit × σ :=
+  loopBreakE xs (fun x s => let r := body x s; (r.1.map fun _ => Loop.continue_, r.2)) s
+
+/-- `fold`: `loop(range, [&](e){ state = f(e, move(state)); })`; `τ` is the fold state, `σ` what `f` captured.
+    If `f` throws, `state` (a local of `fold`) is lost. -/
+def foldE {τ : Type} (xs : List α) (state : τ) (f : α → τ → σ → Except Fault τ × σ) (s : σ) : Except Fault τ × σ :=
+  let r := loopE xs (fun e (st : τ × σ) =>
+      match f e st.1 st.2 with
+      | (.ok t, s') => (.ok (), (t, s'))
+      | (.error err, s') => (.error err, (st.1, s'))) (state, s)
+  (r.1.map fun _ => r.2.1, r.2.2)
+
+/-- `fold_break` with a function that may throw -/
+def foldBreakE {τ : Type} (xs : List α) (state : τ) (f : α → τ → σ → Except Fault (Loop × τ) × σ) (s : σ) : Except Fault τ × σ :=
+  let r := loopBreakE xs (fun e (st : τ × σ) =>
+      match f e st.1 st.2 with
+      | (.ok (l, t), s') => (.ok l, (t, s'))
+      | (.error err, s') => (.error err, (st.1, s'))) (state, s)
+  (r.1.map fun _ => r.2.1, r.2.2)
+
+/-- `map_impl::execute` with a function that may throw: the result container is a local, it is lost with the exception -/
+def mapE (xs : List α) (f : α → σ → Except Fault β × σ) (s : σ) : Except Fault (List β) × σ :=
+  foldE xs ([] : List β) (fun e r s => let y := f e s; (y.1.map fun b => r ++ [b], y.2)) s
+
+/-- `generate_n` with a generator that may throw -/
+def generateNE (count : Nat) (gen : σ → Except Fault β × σ) (g : σ) : Except Fault (List β) × σ :=
+  mapE (intRangeCount count) (fun _ s => gen s) g
+
+/-- `find_by_opt` with a function that may throw -/
+def findByOptE (xs : List α) (f : α → σ → Except Fault (Option β) × σ) (s : σ) : Except Fault (Option β) × σ :=
+  match xs with
+  | [] => (.ok none, s)
+  | x :: rest =>
+    match f x s with
+    | (.error e, s') => (.error e, s')
+    | (.ok (some r), s') => (.ok (some r), s')
+    | (.ok none, s') => findByOptE rest f s'
+
+/-- `std::find_if` with a predicate that may throw: position of the first hit (`size` if none) -/
+def stdFindIfE (xs : List α) (p : α → σ → Except Fault Bool × σ) (s : σ) : Except Fault Nat × σ :=
+  match xs with
+  | [] => (.ok 0, s)
+  | x :: rest =>
+    match p x s with
+    | (.error e, s') => (.error e, s')
+    | (.ok true, s') => (.ok 0, s')
+    | (.ok false, s') => let r := stdFindIfE rest p s'; (r.1.map (· + 1), r.2)
+
+/-- erase while iterating (`sequence_iteration`, `map_iteration(_second)`), with an action that sees the container as it is when
+    it is called — nothing has been erased for the current element yet — and may throw: the container keeps the effects of the
+    actions that returned -/
+def iterateE (action : List α → α → σ → Except Fault Bool × σ) : (done rest : List α) → σ → Except Fault Unit × List α × σ
+  | done, [], s => (.ok (), done, s)
+  | done, x :: rest, s =>
+    match action (done ++ x :: rest) x s with
+    | (.error e, s') => (.error e, done ++ x :: rest, s')
+    | (.ok true, s') => iterateE action done rest s'
+    | (.ok false, s') => iterateE action (done ++ [x]) rest s'
+
+/-- `get_or_insert_with_result` with a `create` that sees the container and may throw: `_create(_key)` is an argument of
+    `emplace`, it is evaluated while the key is not in the container; if it throws nothing has been inserted -/
+def getOrInsertE (m : Map) (k : Nat) (create : Map → Nat → σ → Except Fault Nat × σ) (s : σ) :
+    Except Fault (Nat × Bool) × Map × σ :=
+  match findOptMapped m k with
+  | none =>
+    match create m k s with
+    | (.error e, s') => (.error e, m, s')
+    | (.ok v, s') =>
+      let m' := mapEmplace k v m
+      match findOptMapped m' k with
+      | some e => (.ok (e, true), m', s')
+      | none => (.error .emptyDeref, m', s')
+  | some e => (.ok (e, false), m, s)
+
+/-- `index_map::get` with an `insert` that sees the vector and may throw: `push_back(_insert())` evaluates `_insert()` first,
+    so the k-th call sees the vector grown by k-1 elements, and what has been appended stays if it throws -/
+def indexMapGrowE (needed : Nat) (insert : List α → σ → Except Fault α × σ) : (fuel : Nat) → List α → σ → Except Fault Unit × List α × σ
+  | 0, impl, s => (if impl.length < needed then .error .fuel else .ok (), impl, s)
+  | fuel + 1, impl, s =>
+    if impl.length < needed then
+      match insert impl s with
+      | (.error e, s') => (.error e, impl, s')
+      | (.ok x, s') => indexMapGrowE needed insert fuel (impl ++ [x]) s'
+    else (.ok (), impl, s)
+
+def indexMapGetE (impl : List α) (index : Nat) (insert : List α → σ → Except Fault α × σ) (s : σ) :
+    Except Fault α × List α × σ :=
+  let (r, impl', s') :=
+    if index >= impl.length then indexMapGrowE (index + 1) insert (index + 1 - impl.length) impl s
+    else (.ok (), impl, s)
+  match r with
+  | .error e => (.error e, impl', s')
+  | .ok () => (deref impl' index, impl', s')
+
+/-- `array::init` with a function that may throw: the elements are created left to right directly in the result (a braced
+    initialiser), nothing is default-constructed first; after a throw no further call happens -/
+def arrayInitX (f : Nat → σ → Except Fault β × σ) : Nat → σ → Except Fault (List β) × σ
+  | 0, s => (.ok [], s)
+  | n + 1, s =>
+    match arrayInitX f n s with
+    | (.error e, s1) => (.error e, s1)
+    | (.ok front, s1) =>
+      match f n s1 with
+      | (.error e, s2) => (.error e, s2)
+      | (.ok y, s2) => (.ok (front ++ [y]), s2)
+
+/-- a user function that throws at its `k`-th call (`k = 0`: never): it first records what it sees (`record`), the call is
+    counted, and only a call that does not throw goes on to compute its result (`compute`, which may advance its own state) -/
+def throwAt {γ : Type} (k : Nat) (record : σ → σ) (compute : σ → γ × σ) : Nat × σ → Except Fault γ × (Nat × σ) :=
+  fun (n, s) =>
+    let s1 := record s
+    if n + 1 = k then (.error (.exception (.other "cb")), (n + 1, s1))
+    else let r := compute s1; (.ok r.1, (n + 1, r.2))
+
 end Fcppt.C16
